@@ -341,9 +341,15 @@ def build_cases(rng, tier):
         alpha = SMALL_ALPHABET if k <= 3 else SMALL_ALPHABET[:14]
         for ts in itertools.product(alpha, repeat=k):
             cases.append((1, 1 + (len(cases) % flats[0]["n"]), 1, 1, " ".join(ts), {}))
+    # ... and the same sequences written WITHOUT white space between the tokens (XPath 3.7: the longest possible token is taken; what the
+    # characters then spell may be another expression or none - the lexer of the binding says which, XPathSyntax!Parse judges it)
+    for k in range(2, 4):
+        for ts in itertools.product(COMPACT_ALPHABET, repeat=k):
+            cases.append((1, 1 + (len(cases) % flats[0]["n"]), 1, 1, "".join(ts), {}))
     return docs, flats, cases
 
 
+COMPACT_ALPHABET = ["/", "//", "[", "]", "(", ")", ".", "..", "*", "@", "a", "1", ".5", "|", "::", ",", "and", "-", "child", "text", "=", "<", "!", ":", " "]
 SMALL_ALPHABET = ["/", "//", "[", "]", "(", ")", ".", "..", "*", "@", "a", "1", "|", "::", "$", ",", "and", "-", "child", "text", "="]
 TOKEN_POOL = ["(", ")", "[", "]", "/", "//", "|", "+", "-", "*", "=", "!=", "<", ">=", ",", "@", ".", "..", "::", "$", "and", "or", "div", "mod",
               "a", "b", "child", "ancestor", "text", "node", "count", "last", "position", "1", "2.5", "'t'", "x", "self", "not", "comment"]
